@@ -64,7 +64,8 @@ def install(ex):
         if is_sym(left):
             raise Unmodelled('symbolic insert side in std::map model')
         left = bool(left)
-        stp(st, x, P_, p); stp(st, x, L_, NULL); stp(st, x, R_, NULL); ex.store(st, Ptr(x.reg, x.off + C_), 0, 4)
+        # colours: only "header is red, root is black" is observable by the header code (decrement recognises the header by it)
+        stp(st, x, P_, p); stp(st, x, L_, NULL); stp(st, x, R_, NULL); ex.store(st, Ptr(x.reg, x.off + C_), 1 if _eq(p, h) else 0, 4)
         if left:
             stp(st, p, L_, x)
             if _eq(p, h):
@@ -120,6 +121,10 @@ def install(ex):
                 stp(st, h, L_, ld(st, z, P_) if _isnull(ld(st, z, R_)) else minimum(st, x))
             if _eq(ld(st, h, R_), z):
                 stp(st, h, R_, ld(st, z, P_) if _isnull(ld(st, z, L_)) else maximum(st, x))
+        # the (new) root is black
+        r = ld(st, h, P_)
+        if not _isnull(r):
+            ex.store(st, Ptr(r.reg, r.off + C_), 1, 4)
         return y
 
     ex.stubs['_ZSt18_Rb_tree_incrementPSt18_Rb_tree_node_base'] = increment
